@@ -26,7 +26,8 @@ REQUIRED_FEATURES = ["inputs:mixed-int-float-dtypes", "inputs:has-empty", "input
                      "refuse:storage-mode", "overflow:int32", "overflow:uint16", "overflow:fits-with-dtypes-override",
                      "mode:square", "mode:symm", "mergebuf:1", "inputs:all-empty", "via:cli-merge",
                      "via:cli-merge:field-dtype+agg", "inputs:legacy-without-storage-mode-attr:some", "agg:count", "agg:range",
-                     "overflow:requested-dtype-of-other-signedness:does-not-fit", "overflow:requested-dtype-of-other-signedness:fits"]
+                     "overflow:requested-dtype-of-other-signedness:does-not-fit", "overflow:requested-dtype-of-other-signedness:fits",
+                     "history:one-dtypes-dict-handed-to-two-merges"]
 
 
 def plan(tier, seed):
@@ -53,6 +54,7 @@ def run(ctx, shard):
     elif k == "overflow":
         run_overflow(ctx, shard)
         run_signedness(ctx, {"cases": max(16, shard["cases"] // 2)})
+        run_reused_options(ctx, {"cases": max(8, shard["cases"] // 4)})
 
 
 def gen_inputs(rng, n, symm, special):
@@ -507,3 +509,44 @@ def run_signedness(ctx, shard):
                         f"merge raised {raised} although every exact aggregate fits {np.dtype(odt).name}")
                 c.feature("overflow:raised")
             c.nontrivial("signedness", np.dtype(idt).name, np.dtype(odt).name, tuple(vals))
+
+
+def run_reused_options(ctx, shard):
+    """History: ONE options object (dtypes dict) handed to two merges in turn - integer inputs first, then inputs with
+    fractional float values. Each merge is judged on its own inputs."""
+    import cooler
+
+    rng = ctx.rng("reused")
+    bt = [["a", [0, 10, 20, 30]], ["b", [0, 10, 20]]]
+    for i in range(shard["cases"]):
+        cid = f"reused:{i}"
+        if not ctx.want(cid):
+            continue
+        d = ctx.newdir()
+        groups = []
+        for flt in (False, True):
+            Ps, uris = [], []
+            for j in range(2):
+                P = gen.gen_pixels(rng, 5, True, "sparse70", vmax=20) or {(0, 1): 3}
+                if flt:
+                    P = {kk: v + float(int(rng.integers(1, 8))) / 8 for kk, v in P.items()}
+                uri = os.path.join(d, f"in{int(flt)}{j}.cool")
+                make_cooler(uri, bt, P, count_dtype=np.float64 if flt else None)
+                Ps.append(P); uris.append(uri)
+            groups.append((Ps, uris))
+        shared = {} if i % 2 == 0 else {"score": np.float32}        # names no column of the first merge, or none at all
+        with ctx.case(cid, {"history": ["merge int inputs with dtypes=D", "merge float inputs with the same D"],
+                            "D": {k: np.dtype(v).name for k, v in shared.items()}}) as c:
+            c.feature("history:one-dtypes-dict-handed-to-two-merges")
+            for step, (Ps, uris) in enumerate(groups):
+                out = os.path.join(d, f"out{step}.cool")
+                cooler.merge_coolers(out, uris, mergebuf=int([2, 10**7][i % 2]), dtypes=shared)
+                want = model.fold((kv for P in Ps for kv in sorted(P.items())))
+                keys, cols = read_pixels_raw(out, "/", ("count",))
+                wk = sorted(want)
+                c.check(keys == wk and [float(x) for x in cols["count"].tolist()] == [float(want[x]) for x in wk],
+                        "merge-values-differ:options-object-reused" if step else "merge-values-differ:sum",
+                        f"merge #{step + 1} of the history (inputs stored as {'float64' if step else 'int32'}): stored values "
+                        f"({cols['count'].dtype}) are not the exact sums of its inputs",
+                        lambda: {"got": cols["count"].tolist()[:12], "want": [want[x] for x in wk][:12]})
+            c.nontrivial("reused", i)
